@@ -7,6 +7,7 @@ package peer
 
 //@ func NewConnection
 //@ prop C38
+//@ modifies *
 //@ ensures result.streamAlloc != nil
 //@ ensures result.streamAlloc.isDialer == transport.connIsDialer(conn)
 //@ ensures result.isDialer == transport.connIsDialer(conn)
@@ -14,6 +15,7 @@ package peer
 
 //@ func (*Connection).NextStreamID
 //@ prop C38
+//@ modifies c.streamAlloc.next
 //@ requires c.streamAlloc != nil
 //@ requires c.streamAlloc.next >= 1 && c.streamAlloc.next % 2 == ite(c.streamAlloc.isDialer, 1, 0)
 //@ requires c.streamAlloc.next < 9223372036854775808
